@@ -403,12 +403,50 @@ def run_today(_=None):
     return out
 
 
+@guarded('C11')
+def run_changing_default_date(_=None):
+    """the configured callable is a clock: whatever it answers, one lookup
+    uses ONE effective date (a cross rate needs two entries)"""
+    from quantity.money import MoneyConverter
+    Money = money()
+    eur, usd, jpy = (Money.get_unit_by_symbol(c)
+                     for c in ('EUR', 'USD', 'JPY'))
+    d1, d2 = date(2020, 3, 15), date(2020, 3, 16)
+
+    class Clock:
+        def __init__(self):
+            self.n = 0
+
+        def __call__(self):
+            self.n += 1
+            return d1 if self.n % 2 else d2
+    out = []
+    for first in (0, 1):
+        clock = Clock()
+        clock.n = first
+        conv = MoneyConverter(eur, clock)
+        conv.update(d1, [(usd, 2, 1), (jpy, 200, 1)])
+        conv.update(d2, [(usd, 4, 1), (jpy, 100, 1)])
+        for uc, tc, per_day in ((usd, jpy, (F(100), F(25))),
+                                (jpy, usd, (F(1, 100), F(1, 25)))):
+            r = conv.get_rate(uc, tc)
+            if r is None or O.fr(r.rate) not in per_day:
+                out.append(('C11:default-date:evaluated-twice',
+                            f"daily rates {uc.symbol}->{tc.symbol} are "
+                            f"{per_day[0]} on {d1} and {per_day[1]} on {d2}; "
+                            "with a callable alternating between the two "
+                            f"days get_rate without date gave {r!r}"))
+    return out
+
+
 def replay(case):
     Money = money()
     for c in CUR:
         Money.register_currency(c)
     if 'today' in case:
         return run_today()
+    if 'clock' in case:
+        return run_changing_default_date()
     if case.get('mode_switch'):
         return run_mode_switch(case['history'])
     return run_history(case['history'])
@@ -445,6 +483,11 @@ def run(tier, seed):
             total.violation(sig, msg, {'history': []})
     for sig, msg in run_today():
         total.violation(sig, msg, {'today': True})
+    total.paths += 1
+    total.transitions += 4
+    total.evaluations += 4
+    for sig, msg in run_changing_default_date():
+        total.violation(sig, msg, {'clock': True})
     total.sample({'history': [['y2020', 'usd11'], ['m03', 'jpy'],
                               ['y2020s', 'usdstr']],
                   'meaning': 'yearly USD rate, rejected monthly update, USD '
